@@ -249,3 +249,16 @@ prop("C07", "exploration",
      "finding-prone domain (breakdown-prone classes, invariant-subspace start vectors, scales 1e-8..1e8). Non-trivial = at least one compress and one extend event; distinct by the run's parameters",
      [dict(name="c07_g%d" % g, sources=["c07_krylov.cpp"], flavour="asan", flags=["-DZOO_GROUP=%d" % g], deps=ZOO_DEPS + ["common/fachook.hpp", "common/facmon.hpp"]) for g in (0, 1, 2)],
      assumptions=TRUST + ["the checker reads the factorization through guarded friend access at the hook; it never writes"])
+
+
+# ------------------------------------------------------------------------------------------ C03
+prop("C03", "exploration",
+     "random init()/init(v)/compute() histories on 14 generalized-solver instantiations: SymGEigsSolver in Cholesky mode (dense/sparse A x dense/sparse B, Lower and Upper, row- and column-major) and "
+     "RegularInverse mode, SymGEigsShiftSolver in ShiftInvert, Buckling and Cayley mode over SymShiftInvert with sparse/sparse, dense/dense, sparse/dense and dense/sparse pairings incl. mixed triangles "
+     "and row-major storage; only the documented triangle of each matrix is stored. Pencils: A from the clean symmetric classes, B (K in buckling mode) SPD with condition 1..1e4 (1e2 for the CG mode), "
+     "shifts at 3-10% of the spread from a generalized eigenvalue; corpus: condition up to 1e8, all classes, scales 1e-6..1e6, shifts down to 1e-5. Oracle in long double: "
+     "||A x - lambda B x|| against 4*tol*(stretch of the mode)*max(eps^(2/3),|nu|)/sqrt(lambda_min(M)) + 200 n u cond(F) (||A|| + (|lambda|+|sigma|)||B||)||x||, max|X'MX - I| against 200 ncv u cond(M), "
+     "every returned value matched to a distinct reference eigenvalue of the pencil. Non-trivial = a compute() restarted and returned a pair; distinct by (variant, n, nev, ncv, word, cond, first entry)",
+     [dict(name="c03_%s%d" % (tn, g), sources=["c03_geigs.cpp"], flavour="asan", flags=["-DC03_T=%s" % tt, "-DC03_GROUP=%d" % g], deps=SOLVER_DEPS)
+      for tn, tt in (("d", "double"), ("f", "float"), ("ld", "long double")) for g in (0, 1)],
+     assumptions=TRUST + ["the reference spectrum of the pencil comes from Eigen's GeneralizedSelfAdjointEigenSolver in double"])
